@@ -7,3 +7,4 @@ from . import typemap  # noqa: F401
 from . import naming  # noqa: F401
 from . import schemagen  # noqa: F401
 from . import plugins_ops  # noqa: F401
+from . import generic  # noqa: F401
